@@ -7,7 +7,7 @@ MODEL_QUALID = "Model.Circuit.run_script"
 NCFG = 14
 PER_EV = 11
 FORMAT = ("script [time_based; wsize; wdur_ms; min_calls; fnum; fden; slow_on; slow_thr_ms; snum; sden; wait_open_ms; permitted; has_fallback; n; (op a b)*] "
-          "op 1=Poll a 2=Drop a 3=Advance a(ms) 4=Complete a b 5=ForceOpen 6=ForceClosed 7=Reset; outcome b: 0 ok, 1 ok classified failure, 2 err, 3 err classified success, 4 panic. "
+          "op 1=Poll a 2=Drop a 3=Advance a(ms) 4=Complete a b 5=ForceOpen 6=ForceClosed 7=Reset 8=Call a (create the call future without polling it); outcome b: 0 ok, 1 ok classified failure, 2 err, 3 err classified success, 4 panic. "
           "trace per event [r; started; state; state_sync(+10 if is_open disagrees); metrics.state; total; failures; successes; slow; in-flight; wake mask]; "
           "r: -1 no poll, 0 pending, 1 Ok, 2 Err(Inner), 3 OpenCircuit, 4 fallback response, 5 panicked, 9 nothing to poll; states 0 Closed 1 Open 2 HalfOpen")
 TRUSTED = ["rates are compared as exact rationals in the model (cnt*den >= num*total); the code compares binary64 quotients — equal for the small counts/denominators generated (distinct small rationals never round to the same double)",
@@ -26,7 +26,7 @@ def events(s):
     n = s[13]
     out = []
     for e in evs:
-        if e[0] in (1, 2) and 0 <= e[1] < n:
+        if e[0] in (1, 2, 8) and 0 <= e[1] < n:
             out.append(e)
         elif e[0] == 3:
             out.append(e)
@@ -143,8 +143,10 @@ def random_concurrent(rng, maxn=8, maxlen=40):
     L = rng.randint(5, maxlen)
     for _ in range(L):
         x = rng.random()
-        if x < 0.45:
+        if x < 0.41:
             s += [1, rng.randrange(n), 0]
+        elif x < 0.45:
+            s += [8, rng.randrange(n), 0]      # call() without a poll
         elif x < 0.52:
             s += [2, rng.randrange(n), 0]
         elif x < 0.70:
